@@ -84,7 +84,7 @@ def _known_obj(s):
 
 
 def check_obj(acc, kind, case, s, where="result"):
-    known = _known_obj(s)
+    known = _known_obj(s) if harness.KNOWN_ENABLED else None
     if known:
         acc.excluded_known[known] += 1
         return
